@@ -189,6 +189,35 @@ func ruleRETPAIR(c *Ctx, r *Report) {
 	} else {
 		r.bad(rule, "pgtable", "-", pt.Err)
 	}
+	// helpers whose (value, error) pair is forwarded are put under the same rule (worklist)
+	for i := 0; i < len(fns); i++ {
+		for _, b := range fns[i].Blocks {
+			for _, in := range b.Instrs {
+				ret, ok := in.(*ssa.Return)
+				if !ok || len(ret.Results) < 2 {
+					continue
+				}
+				for _, rv := range ret.Results {
+					var call *ssa.Call
+					switch x := c.resolve(rv, nil).(type) {
+					case *ssa.Extract:
+						call, _ = x.Tuple.(*ssa.Call)
+					case *ssa.Call:
+						call = x
+					}
+					if call == nil {
+						continue
+					}
+					if h := call.Call.StaticCallee(); h != nil && inLib(h) && h.Blocks != nil {
+						hr := h.Signature.Results()
+						if hr.Len() >= 2 && isErrorType(hr.At(hr.Len()-1).Type()) {
+							add(h)
+						}
+					}
+				}
+			}
+		}
+	}
 	checked := map[*ssa.Function]bool{}
 	for _, f := range fns {
 		checked[f] = true
